@@ -5,7 +5,7 @@ from checks.cv import tlc_cases
 from checks.c14 import tx_spec
 
 
-def rows_for(r, chrom, genes, txs, ce3, th):
+def rows_for(r, chrom, genes, txs, ce3, th, force=None):
     rows = []
     for t in txs:
         g = next(x for x in genes if x['id'] == t['gene'])
@@ -37,6 +37,8 @@ def rows_for(r, chrom, genes, txs, ce3, th):
         for kind, blocks in cands:
             reads = r.choice([0, 1, 2, 5])
             fpb = r.choice([0.5, 1.0, 2.0]); score = r.choice([0.5, 1.0, 3.0])
+            if force and kind == 'circRNA' and force(blocks):
+                reads, fpb, score = 5, 2.0, 3.0
             enough = reads >= th['min_read_number']
             if ce3:
                 if th['min_fpb_circ'] is not None and th['min_fpb_circ'] and fpb < th['min_fpb_circ']:
@@ -74,12 +76,16 @@ def check_c17(tier, rep=None, only=None):
         rep.cov['rule'] = rule_before + f' | circRNA backbones: callVariant on the GVFs of the C17 campaign, clause {only} of CircTrace (circle read as four copies, every ATG of the first copy)'
     work = env.scratch('c17_')
     r = env.rng('c17')
-    n = 24 if tier == 'quick' else 500
+    n = 36 if tier == 'quick' else 600
     jl, meta = [], []
     for i in range(n):
-        ref = refgen.random_reference(r, n_genes=r.randrange(1, 3), coding_p=0.6, max_exons=4, aa_len=(10, 18), nc_len=(30, 70),
-                                      flank_p=0.6, intron=(4, 12)) if False else \
-            refgen.random_reference(r, n_genes=r.randrange(1, 3), coding_p=0.6, max_exons=4, aa_len=(10, 18), nc_len=(30, 70), flank_p=0.6)
+        tiny = None
+        if r.random() < 0.45:
+            # a tiny exon that is circularised, with a start codon that small variants will hit (see below)
+            ref, tt_, atg = refgen.tiny_circle_reference(r)
+            tiny = (tt_.id, atg) if ref is not None else None
+        if tiny is None:
+            ref = refgen.random_reference(r, n_genes=r.randrange(1, 3), coding_p=0.6, max_exons=4, aa_len=(10, 18), nc_len=(30, 70), flank_p=0.6)
         d = os.path.join(work, f'c{i}')
         paths = ref.write(d)
         genes, txs = ref.features()
@@ -87,7 +93,9 @@ def check_c17(tier, rep=None, only=None):
         th = dict(min_read_number=r.choice([1, 1, 2]), min_fpb_circ=r.choice([None, 1.0]) if ce3 else None,
                   min_circ_score=r.choice([None, 1.0]) if ce3 else None)
         sr = r.choice([(-2, 0), (0, 0), (-1, 1)]); er = r.choice([(-100, 5), (0, 0), (-1, 3)])
-        rows = rows_for(r, ref.chroms['chr1'], genes, txs, ce3, th)
+        # the tiny exon on its own is always reported with enough support
+        mid = [list(e) for e in txs[0]['exons'][1:2]] if tiny else None
+        rows = rows_for(r, ref.chroms['chr1'], genes, txs, ce3, th, force=(lambda b: b == mid) if tiny else None)
         if not rows:
             continue
         inp = os.path.join(d, 'circ.txt'); open(inp, 'w').write('\n'.join(x['line'] for x in rows) + '\n')
@@ -102,7 +110,7 @@ def check_c17(tier, rep=None, only=None):
             if th['min_circ_score'] is not None:
                 argv += ['--min-circ-score', th['min_circ_score']]
         jl.append(dict(argv=argv, read_gvf=outp, circ_seq=paths))
-        meta.append(dict(ref=ref, rows=rows, sr=sr, er=er, ce3=ce3, th=th, argv=[str(a) for a in argv]))
+        meta.append(dict(ref=ref, rows=rows, sr=sr, er=er, ce3=ce3, th=th, argv=[str(a) for a in argv], tiny=tiny))
     nj = env.NCPU
     res = jobs.run_jobs('run_parser_case.py', [dict(jobs=jl[k::nj]) for k in range(nj)], timeout=3000)
     flat = [None] * len(jl)
@@ -123,6 +131,20 @@ def check_c17(tier, rep=None, only=None):
         for tt in m['ref'].txs.values():
             if rv.random() < 0.7:
                 small += cvgen.random_small_variants(rv, m['ref'], tt, rv.randrange(1, 4), kinds=('SNV', 'SNV', 'INS', 'DEL'))
+        if m.get('tiny'):
+            # variants that destroy the designed start codon of the tiny circle: the deletion of its A, a substitution of one of
+            # its bases
+            tt = m['ref'].txs[m['tiny'][0]]; atg = m['tiny'][1]
+            sq = tt.seq(m['ref'].chroms['chr1'])
+            extra = []
+            if rv.random() < 0.8:
+                extra.append(cvgen.del_at(m['ref'], tt, sq, atg - 1, 1))
+            for _ in range(rv.randrange(0, 3)):
+                p_ = atg + rv.randrange(0, 3)
+                extra.append(cvgen.snv_at(m['ref'], tt, sq, p_, rv.choice([b for b in 'ACGT' if b != sq[p_]])))
+            for v in extra:
+                if v is not None and not cvgen.overlaps_any(v, small):
+                    small.append(v)
         m['small'] = small
         inputs = [jl[mi]['read_gvf']]
         if small:
